@@ -526,4 +526,15 @@ example :
     numBlocks (w.usedTs.length / 1) (2 * 2) ≠ 1 := by
   decide
 
+/-- Finding F22 repaired: the inclusive ranges equal the pinned definition whenever that one is defined
+    (two or more lines), and are the exclusive range of the only line otherwise. -/
+theorem lineRangesInclFixed_spec (w : Wave) (P : Nat) (δ : Int) :
+    (∀ r, w.lineRangesIncl P = some (some r) → w.lineRangesInclFixed P δ = some (some r)) ∧
+    (w.lineRangesIncl P = some none → w.lineRangesInclFixed P δ = (w.lineRangesExcl P δ).map some) ∧
+    (w.lineRangesIncl P = none → w.lineRangesInclFixed P δ = none) := by
+  refine ⟨?_, ?_, ?_⟩
+  · intro r h; simp [Wave.lineRangesInclFixed, h]
+  · intro h; simp [Wave.lineRangesInclFixed, h]
+  · intro h; simp [Wave.lineRangesInclFixed, h]
+
 end Verif.C03
